@@ -4,7 +4,7 @@ import ast
 from ..affine import Env, Form, Lit, NonAffine, State, canon_int, exec_block, is_floor_ms, lin, lin_in, literal
 from ..cfg import cfg_of
 from ..model import norm, parent, walk_own
-from ..rules_read import EV_DUR, EV_START, W_END, W_START, limit_rule, order_rule, pred_memory, pred_peewee, pred_sqlite
+from ..rules_read import count_source, EV_DUR, EV_START, W_END, W_START, limit_rule, order_rule, pred_memory, pred_peewee, pred_sqlite
 from ..rules_store import is_param_ref
 
 
@@ -215,6 +215,7 @@ def check(prog, rep):
     )
     rep.trusted_base = ["SQL comparison/ORDER BY/LIMIT semantics", "peewee translates where()/order_by()/limit() literally", "datetime arithmetic is integer microsecond arithmetic"]
     rep.not_decided = ["the 2 ms edge tolerance", "float / julianday precision of the stored instants", "SQLite planner behaviour on ties"]
+    count_source(prog, rep)
     pm = pred_memory(prog, rep)
     ps = pred_sqlite(prog, rep)
     pp = pred_peewee(prog, rep)
